@@ -91,10 +91,13 @@ def run(ev, vd):
     nrec = 0
     with open(trn, "w") as fo:
         run_id = 0
+        stalled = False
         for hosts in (1, 2, 3, 4):
             # second repetition: without the on-node single-copy transfer, so that large receives complete asynchronously
             # (as on a real interconnect) and small messages can finish before earlier large ones
             for rep in range(4 if tier() == "thorough" else 2):
+                if stalled:
+                    break       # a run that ran into its deadline is reported below; the remaining runs would only wait for theirs
                 run_id += 1
                 prefix = os.path.join(BUILD, "tmp", "dnet_%d_r%d" % (os.getpid(), run_id))
                 for p in glob.glob(prefix + ".*.ndjson"):
@@ -103,6 +106,7 @@ def run(ev, vd):
                 rc, out, dt = sh(MPIRUN + ["-n", str(hosts), dbin("dnet"), prefix, str(ev.seed * 10 + run_id), tier()], timeout=1500, env=env2)
                 if rc == 124:
                     vd.violation(dict(component="network", op="hang", hosts=hosts), "network harness with %d hosts did not finish" % hosts, dict(out=out[-1500:]))
+                stalled = rc != 0
                 nrec += merge_net(prefix, hosts, run_id, fo)
                 for p in glob.glob(prefix + ".*.ndjson"):
                     os.remove(p)
